@@ -208,3 +208,84 @@ Definition children (n : node) : list node :=
   end.
 Definition flat (n : node) : bool := forallb (fun c => negb (has_content c)) (children n).
 Definition null_guard (a b : node) : bool := clash_b a b && (negb (has_null_leaf a) || flat b).
+
+(* ---- "differ as data, sequence order disregarded in the synchronised
+   modes": the equivalence a uniform pair of options (--arrays am, --aoh hm)
+   is documented to decide.  How one pair of sequences is read depends, as
+   documented, on the first element of the right-hand list (a list that
+   starts with a hash is an Array-of-Hashes):
+     LPos true   element by element, each pair compared recursively
+     LPos false  element by element, each pair compared whole (--aoh position)
+     LValue      as bags of whole elements (order disregarded)
+   The identity-key modes (--aoh key | deep) are not covered here. ---- *)
+Fixpoint forall2b {A} (f : A -> A -> bool) (l l' : list A) : bool :=
+  match l, l' with
+  | [], [] => true
+  | x :: r, y :: r' => f x y && forall2b f r r'
+  | _, _ => false
+  end.
+
+(* multiset equality of two lists for an equivalence [eq]: every element of
+   the first list strikes out one equal element of the second, none is left *)
+Fixpoint remove_first {A} (f : A -> bool) (l : list A) : option (list A) :=
+  match l with
+  | [] => None
+  | y :: r => if f y then Some r
+              else match remove_first f r with Some r' => Some (y :: r') | None => None end
+  end.
+Fixpoint bag_eqb {A} (eq : A -> A -> bool) (l l' : list A) : bool :=
+  match l with
+  | [] => match l' with [] => true | _ => false end
+  | x :: r => match remove_first (fun y => eq y x) l' with
+              | Some l'' => bag_eqb eq r l''
+              | None => false
+              end
+  end.
+
+Inductive lmode := LPos (deep : bool) | LValue.
+Definition list_mode (am : arr_opt) (hm : aoh_opt) (rels : list node) : option lmode :=
+  let plain := match am with ArrPosition => LPos true | ArrValue => LValue end in
+  match rels with
+  | NMap _ _ :: _ =>
+      match hm with
+      | AohPosition => Some (match am with ArrPosition => LPos false | ArrValue => LValue end)
+      | AohDpos => Some plain
+      | AohValue => Some LValue
+      | AohKey | AohDeep => None
+      end
+  | _ => Some plain
+  end.
+Definition unkeyed (hm : aoh_opt) : bool := match hm with AohKey | AohDeep => false | _ => true end.
+
+Fixpoint equiv (am : arr_opt) (hm : aoh_opt) (a b : node) {struct a} : bool :=
+  match a, b with
+  | NMap i kvs, NMap j kvs' =>
+      tag_eqb (tag i) (tag j) && Nat.eqb (List.length kvs) (List.length kvs') &&
+      (fix go (l : list (node * node)) : bool :=
+         match l with
+         | [] => true
+         | kv :: r =>
+             existsb (fun kv' => py_eq (leaf_value (fst kv)) (leaf_value (fst kv'))
+                                 && equiv am hm (snd kv) (snd kv')) kvs'
+             && go r
+         end) kvs
+  | NSeq i els, NSeq j els' =>
+      tag_eqb (tag i) (tag j) &&
+      match list_mode am hm els' with
+      | Some (LPos true) =>
+          (fix go (l l' : list node) {struct l} : bool :=
+             match l, l' with
+             | [], [] => true
+             | x :: r, y :: r' => equiv am hm x y && go r r'
+             | _, _ => false
+             end) els els'
+      | Some (LPos false) => forall2b data_eq els els'
+      | Some LValue => bag_eqb data_eq els els'
+      | None => false
+      end
+  | _, _ => data_eq a b
+  end.
+
+(* the configuration selects the same pair of modes at every list *)
+Definition uniform (cfg : dcfg) (am : arr_opt) (hm : aoh_opt) : Prop :=
+  (forall nc, array_diff_mode cfg nc = Ok am) /\ (forall nc, aoh_diff_mode cfg nc = Ok hm).
